@@ -112,6 +112,10 @@ def bounded_standin(laws, seed, tier):
 def bundle(repo, tier, seed, laws, classes=None, extra_vcs=(), extra_sanity=(), explanation="", bounded=True):
     r = run(repo, laws, classes)
     regions = [f"{c}: {fid} {text}" for c, ents in r["regions"].items() for fid, text in ents]
+    from harness import opt_validate
+    vfails, vcounts = opt_validate.validate(seed, depth=2, sample=300 if tier == "quick" else 8000)
+    if vfails:
+        raise RuntimeError(f"OptTheory clause failed its bounded validation against confectioner: {vfails[0]!r} - no proof using it can be trusted")
     bs = bounded_standin(laws, seed, tier) if bounded else None
     return {
         "bounded": [{k: v for k, v in bs.items() if k != "witnesses"}] if bs else [], "bounded_witnesses": bs["witnesses"] if bs else [],
@@ -124,4 +128,5 @@ def bundle(repo, tier, seed, laws, classes=None, extra_vcs=(), extra_sanity=(), 
                         "classes NOT under contract (out of the verifier's reach today): Map, Template (bounded stand-in on the real code, labelled bounded), Namespace, _DatasetClassMeta (no claim)",
                         "private helper classes are verified by inlining only: " + ", ".join(INLINED_ONLY)] + [f"proved outside region: {x}" for x in regions],
         "explanation": explanation,
+        "samples": [{"opt_theory_validation": "every OptTheory clause evaluated with has/get/mix/... interpreted by the real confectioner", "cases": vcounts, "failures": 0}],
     }
